@@ -2070,8 +2070,10 @@ func (in *inliner) emitSite0(s *inlSite) (rope, bool) {
 		}
 	}
 	if ft.Results != nil {
-		for i, f := range ft.Results.List {
+		ri := -1 // index of the result (a field may declare several)
+		for _, f := range ft.Results.List {
 			for _, n := range f.Names {
+				ri++
 				if n.Name != "_" && unifiedRes[info.Defs[n]] {
 					continue
 				}
@@ -2080,7 +2082,7 @@ func (in *inliner) emitSite0(s *inlSite) (rope, bool) {
 					if r, ok := newSubst[info.Defs[n]]; ok {
 						nm = flatten(r)
 					}
-					out = append(out, g("var %s %s\n_ = %s\n", nm, typeStr(sig.Results().At(i).Type(), q), nm)...)
+					out = append(out, g("var %s %s\n_ = %s\n", nm, typeStr(sig.Results().At(ri).Type(), q), nm)...)
 				}
 			}
 		}
